@@ -94,7 +94,7 @@ RECURSIVE WF(_)
 WF(v) == IF IsRec(v)
          THEN /\ \A i \in 1..Len(v.attrs) : WF(v.attrs[i].v)
               /\ \A i \in 1..Len(v.items) : WF(v.items[i].v) /\ (v.items[i].slot => WF(v.items[i].key))
-         ELSE v.k \in {"x", "i", "n", "g", "f", "b", "s", "t"}
+         ELSE v.k \in {"x", "f", "b", "s", "t", "d"} \cup IntClasses
 WellFormed == WF(doc)
 
 \* instances of the same type with the same rendering: no reader can tell them apart
